@@ -20,6 +20,7 @@ demo_without=$(cd $DEMODIR && go test -vet=off -count=1 -run 'TestSeededDemo$' .
 git stash pop -q
 echo "suite_failures_with_change=$suite demo_fails_with=$demo_with demo_fails_without=$demo_without"
 res=""
+EVBAK=$(mktemp -d /var/tmp/verif-evbak.XXXXXX); cp -a /verif/evidence/. $EVBAK/ 2>/dev/null
 if git -C /repo apply --check $D/patch.diff 2>/dev/null; then
   git -C /repo apply $D/patch.diff
   for P in $PROPS; do
@@ -31,6 +32,7 @@ if git -C /repo apply --check $D/patch.diff 2>/dev/null; then
 else
   echo "PATCH DOES NOT APPLY to /repo"; res="noapply"
 fi
+rm -rf /verif/evidence; mkdir -p /verif/evidence; cp -a $EVBAK/. /verif/evidence/ 2>/dev/null; rm -rf $EVBAK
 python3 - "$D" "$SID" "$suite" "$demo_with" "$demo_without" "$res" "$PROPS" <<'PY'
 import json,sys,os
 d,sid,suite,dw,dwo,res,props=sys.argv[1:8]
